@@ -189,7 +189,7 @@ fn run_family(k: usize, seed: u64, only: Option<(usize, usize)>) -> Option<(usiz
         10 => { let v: Vec<RemoteRef> = targets().into_iter().take(60).flat_map(|t| [RemoteRefState::New, RemoteRefState::Tracked].into_iter().map(move |s| RemoteRef { target: t.clone(), state: s })).collect(); check_family(&v, only) }
         11 => {
             let mut v: Vec<((bool, u8, u32), (i32, u64, i64))> = vec![];
-            for b in [false, true] { for x in [0u8, 1] { for y in [0u32, 1, 256, 1 << 24] { for z in [0i32, 1, -1] { for w in [0u64, 1, 1 << 32] { for q in [0i64, -1, 1 << 40] { v.push(((b, x, y), (z, w, q))); } } } } } }
+            for b in [false, true] { for x in [0u8, 1] { for y in [0u32, 1, 256, 1 << 24] { for z in [0i32, 1, -1, 256] { for w in [0u64, 1, 1 << 32] { for q in [0i64, -1, 1 << 40] { v.push(((b, x, y), (z, w, q))); } } } } } }
             check_family(&v, only)
         }
         12 => check_family(&views(seed), only),
